@@ -345,7 +345,7 @@ def main(chk):
     tasks.sort(key=lambda t: -(len(t[1][1]) if t[0] is o2_recv else 0))
     chk.parallel(_dispatch, tasks)
 
-    hobl.handle_obligations(chk, prog, {'C03'}, ['simple', 'session', 'extended', 'named', 'malformed', 'cuts', 'plugins', 'two-backends', 'pause', 'copy', 'commands', 'two-clients', 'timeouts', 'drops'])
+    hobl.handle_obligations(chk, prog, {'C03'}, ['simple', 'session', 'extended', 'named', 'malformed', 'cuts', 'plugins', 'two-backends', 'pause', 'copy', 'commands', 'two-clients', 'timeouts', 'drops', 'checkout-failures'])
 
 if __name__ == '__main__':
     run_check('C03', main)
